@@ -476,6 +476,10 @@ func (t *Task) load(
 		blocksMut sync.Mutex
 		blocks    []eth.Block
 	)
+	if part == 0 {
+		// batch_size < concurrency: one block per partition
+		part = 1
+	}
 	for i := 0; i < t.concurrency; i++ {
 		i := i
 		m := start + uint64(i*part)
